@@ -65,7 +65,7 @@ pub fn expected_probes(prop: &str) -> Vec<&'static str> {
         "C13" => vec!["probe_watch_published"],
         "C14" => vec!["probe_reset_applied", "probe_stale_delta_delivery", "probe_reject_from_future"],
         "C16" => vec!["probe_foreign_syn"],
-        "C20" => vec!["probe_reset_applied", "probe_multi_reset_message", "probe_reset_of_nonempty_copy"],
+        "C20" => vec!["probe_reset_applied", "probe_multi_reset_message", "probe_reset_of_nonempty_copy", "probe_reset_of_new_member"],
         _ => vec![],
     }
 }
